@@ -792,6 +792,60 @@ func (env *cenv) evalCall(t ECall) cval {
 			return cval{v: Val{v.v[0]}, T: types.Typ[types.Uintptr]}
 		}
 		env.errf("base of %v", v.T)
+	case "nsend", "sendsame", "lastsend":
+		v := env.eval(t.Args[0])
+		if _, ok := v.T.Underlying().(*types.Interface); !ok {
+			env.errf("%s of non-interface", name)
+		}
+		sock := v.v[1]
+		switch name {
+		case "nsend":
+			return cval{v: Val{e.ghost(env.cur, gkey("nsend", sock), BV(64))}, T: tInt}
+		case "sendsame":
+			return cval{v: Val{e.ghost(env.cur, gkey("sendsame", sock), Bool)}, T: tBool}
+		}
+		T := env.resolveType("knxnet.ServicePackable")
+		return cval{v: Val{e.ghost(env.cur, gkey("lastsend", sock)+"#0", BV(64)), e.ghost(env.cur, gkey("lastsend", sock)+"#1", BV(64))}, T: T}
+	case "nsent", "closed", "nclose", "period":
+		v := env.eval(t.Args[0])
+		ch := v.v[0]
+		switch name {
+		case "closed":
+			return cval{v: Val{e.ghost(env.cur, gkey("closed", ch), Bool)}, T: tBool}
+		case "period":
+			return cval{v: Val{e.ghost(env.cur, gkey("period", ch), BV(64))}, T: types.Typ[types.Int64]}
+		}
+		return cval{v: Val{e.ghost(env.cur, gkey(name, ch), BV(64))}, T: tInt}
+	case "lastsent":
+		v := env.eval(t.Args[0])
+		ct, ok := v.T.Underlying().(*types.Chan)
+		if !ok {
+			env.errf("lastsent of non-channel")
+		}
+		sl := e.P.lay.slots(ct.Elem())
+		out := make(Val, len(sl))
+		for i, k := range sl {
+			out[i] = e.ghost(env.cur, fmt.Sprintf("%s#%d", gkey("lastsent", v.v[0]), i), regSort(k))
+		}
+		return cval{v: out, T: ct.Elem()}
+	case "held":
+		v := env.eval(t.Args[0])
+		if v.addr == nil {
+			env.errf("held() needs an addressable mutex")
+		}
+		return cval{v: Val{e.ghost(env.cur, gkey("held", v.addr), Bool)}, T: tBool}
+	case "nspawn":
+		s, ok := t.Args[0].(EStr)
+		if !ok {
+			env.errf("nspawn needs a function name string")
+		}
+		return cval{v: Val{e.ghost(env.cur, "nspawn:"+s.V, BV(64))}, T: tInt}
+	case "gcount":
+		s, ok := t.Args[0].(EStr)
+		if !ok {
+			env.errf("gcount needs a counter name string")
+		}
+		return cval{v: Val{e.ghost(env.cur, s.V, BV(64))}, T: tInt}
 	case "rawbyte":
 		// byte view of the backing array of a slice whose elements consist of byte cells only
 		v := env.eval(t.Args[0])
